@@ -162,18 +162,18 @@ Theorem T02d_named_entry : forall (A : Type) (d : A) keys (arr : list A) i,
 Proof. exact @named_entry. Qed.
 Print Assumptions T02d_named_entry.
 
-Theorem T02d_named_gradient : forall keys (g : list R),
+Theorem T02d_named_gradient : forall (A : Type) (d : A) keys (g : list A),
   List.length g = List.length (sorted_names keys) ->
-  named_gradient (Some g) (fst (expressions_names_indices keys)) = Some (Some (combine (sorted_names keys) g)).
-Proof. exact named_gradient_spec. Qed.
+  named_gradient d (Some g) (fst (expressions_names_indices keys)) = Some (Some (combine (sorted_names keys) g)).
+Proof. exact @named_gradient_spec. Qed.
 Print Assumptions T02d_named_gradient.
 
-Theorem T02d_named_hessian : forall keys (h : list (list R)),
+Theorem T02d_named_hessian : forall (A : Type) (d : A) keys (h : list (list A)),
   List.length h = List.length (sorted_names keys) ->
   Forall (fun row => List.length row = List.length (sorted_names keys)) h ->
-  named_hessian (Some h) (fst (expressions_names_indices keys))
+  named_hessian d (Some h) (fst (expressions_names_indices keys))
   = Some (Some (combine (sorted_names keys) (map (fun row => Some (combine (sorted_names keys) row)) h))).
-Proof. exact named_hessian_spec. Qed.
+Proof. exact @named_hessian_spec. Qed.
 Print Assumptions T02d_named_hessian.
 
 Example T02d_demo :
